@@ -838,6 +838,10 @@ def l2_numeric(c, r, quick):
         big = vals is not None and op != 'round-expr' and any(abs(v) >= W or v.denominator != 1 for v in vals)
         c.note_case(line, op == 'domain' or big or '2^' in e or op in ('ncr', 'npr') and vals[0] > 20, 'L2-' + op)
         got = parse_int_text(i[1]) if i[0] == 'ok' else None
+        if got is None and i[0] == 'ok' and 'pi' in e and isinstance(i[1], str) and i[1].startswith('approx. '):
+            # since fix 05b3863 floor/ceil/round of a multiple of pi are (rightly) flagged
+            # approximate: the marker is C03's subject, C10 judges the integer
+            got = parse_int_text(i[1][len('approx. '):])
         if i[0] == 'crash':
             viol(c, 'evaluate-crashed', {'kind': 'impl-crash', 'layer': 'L2', 'expr': e, 'impl': io[:300]})
             continue
